@@ -198,6 +198,24 @@ Q(id='C01.kalign_run', props=['C01', 'C04', 'C03'], cls='B', harness='c01_run.c'
            'convert_msa_to_internal, aln_param_init/free, alloc_tasks/free_tasks: frame-only stubs (each has its own contract query)'],
   assumptions=[A_NOFAIL, A_WRAP, 'bounded: 2-3 sequences of 0-3 residues, gap counts 0-2, widths case-split; data invariant of detect_aligned instantiated: status UNALIGNED only if all gap counts are 0'])
 
+def _lifecycle_shapes(tier):
+    out = []
+    sets = [((1, 1), 1), ((2, 0, 1), 1), ((1, 1, 0, 0), 0), ((1, 1, 0, 0), 1)] if tier == 'quick' else \
+           [((1, 1), 1), ((2, 0, 1), 1), ((0, 1, 1), 2), ((1, 1, 0, 0), 0), ((1, 1, 0, 0), 1), ((0, 1, 0, 1), 1), ((1, 0, 0, 0), 1)]
+    for lens, spare in sets:
+        nz = [x for x in lens if x > 0]
+        w = (max(nz) + 1) if len(nz) >= 2 else 1
+        out.append(dict(name='lens%s_spare%d_w%d' % (''.join(map(str, lens)), spare, w),
+                        defs=dict(KV_N=len(lens), KV_LENS='{' + ','.join(map(str, lens)) + '}', KV_W=w, KV_SPARE=spare)))
+    return out
+Q(id='C16.kalign_run.lifecycle', props=['C16', 'C05', 'C01'], cls='B', harness='c01_run.c', entry='h_c01_run', shapes=_lifecycle_shapes,
+  mode='wrap', unwind=14, timeout=900, loops_files=['msa_op.finalise.loops'], shrink=True, leak_check=True, defs=['-DKV_LIFECYCLE'],
+  funcs=['kalign_run', 'kalign_essential_input_check', 'set_sip_nsip', 'kalign_free_msa', 'free_msa_seq', 'dealign_msa', 'msa_sort_len_name', 'finalise_alignment', 'msa_sort_rank', 'kalign_msa_to_arr'],
+  srcs=['lib/src/msa_check.c', 'lib/src/msa_op.c', 'lib/src/msa_sort.c', 'lib/src/msa_alloc.c', 'lib/src/alphabet.c', 'lib/src/tlrng.c'],
+  native_srcs=['lib/src/tldevel.c', 'lib/src/msa_check.c', 'lib/src/msa_op.c', 'lib/src/msa_sort.c', 'lib/src/msa_alloc.c', 'lib/src/alphabet.c', 'lib/src/tlrng.c'],
+  trusted=[TRUST_MSG, 'qsort: insertion-sort stub calling the real comparator', 'esl_stopwatch_*: no-op stubs',
+           'build_tree_kmeans / create_msa_tree / convert_msa_to_internal / aln_param_init / alloc_tasks replaced by the stubs of C01.kalign_run (they allocate nothing here; their own pairs are C16.alloc_pairs)'],
+  assumptions=[A_NOFAIL, A_WRAP, 'bounded: 2-4 sequences of 0-2 residues (up to two of them empty), 0-2 spare pre-allocated records; leak = CBMC --memory-leak-check after the real kalign_free_msa'])
 # =========================================================================== C07 / C08 kernels
 def _kernel_shapes(tier):
     out = []
@@ -636,10 +654,39 @@ PROPS['C08'] = dict(
                 'the k-means fallback and the induction over the recursion / guide tree are meta-arguments or undecided'),
     technique=T_CB + ' (harness-enforced), bounded complete unwinding, bit-precise floats; native replay',
     explanation=EXPL_COMMON)
+def _prof_diag_shapes(tier):
+    out = []
+    nmax = 2 if tier == 'quick' else 3
+    for n in range((2 if tier == 'quick' else 1), nmax + 1):     # ~200 s per shape: the quick tier keeps the two 2-row blocks
+        for ts, te in ((1, 1), (0, 0)) if tier == 'quick' else ((1, 1), (1, 0), (0, 1), (0, 0)):
+            S = 0 if ts else 1
+            E = S + n
+            ln = E + (0 if te else 1)
+            for ps in ((0,) if tier == 'quick' else (0, 2)):
+                out.append(dict(name='n%d_ts%d_te%d_p%d' % (n, ts, te, ps), defs=dict(KV_ROWS=ln, KV_LB=ln, KV_S=S, KV_E=E, KV_PSET=ps)))
+    return out
+for (_ka, _kb), _nm in (((2, 1), 'seqprofile'), ((2, 2), 'profileprofile')):
+    Q(id='C08.%s.diag_step' % _nm, props=['C08'], cls='B', harness='c07_profiles.c', entry='h_c08_profiles_diag', shapes=_prof_diag_shapes,
+      defs=['-DKV_ENTRY_DIAG', '-DKV_KA=%d' % _ka, '-DKV_KB=%d' % _kb],
+      mode='wrap', unwind=8, timeout=1500, funcs=['aln_%s_foward' % _nm, 'aln_%s_backward' % _nm, 'aln_%s_meetup' % _nm, 'make_profile_n', 'update_n', 'set_gap_penalties_n'],
+      srcs=['lib/src/aln_mem.c'], native_srcs=['lib/src/tldevel.c', 'lib/src/aln_mem.c'], trusted=[TRUST_MSG, 'fabsf: CBMC library model'],
+      assumptions=[A_FLOAT, A_WRAP, A_NOFAIL, 'bounded: a group of 2 copies against the bare sequence / against a group of 2 copies of the same string, diagonal blocks of 1-2 (thorough 3) rows, 3 residue codes, the concrete parameter sets of the C07 kernel queries',
+                   'profiles are built by the real make_profile_n / update_n (diagonal path) / set_gap_penalties_n'])
+Q(id='C12.d_estimation', props=['C12'], cls='B', harness='c12_distance.c', entry='h_c12_distance', defs=['-DKV_N=2'],
+  mode='wrap', unwind=6, timeout=600, funcs=['d_estimation', 'calc_distance'],
+  native_srcs=['lib/src/tldevel.c'],
+  trusted=[TRUST_MSG, 'bpm_block replaced by a stub with its contract (0..1024, symmetric per pair, 0 on the diagonal; C11)', 'alloc_2D_array_size_float (tldevel.c galloc) replaced by a plain allocator'],
+  assumptions=[A_FLOAT, A_WRAP, A_NOFAIL, 'bounded: instance of 2 sequences, lengths a symbolic choice among 16 representative values (1 .. 200000, around 1000 / 10000 / 20000), edit distances 0..1024 symbolic; pair mode (< 100 sequences) only'])
 Q(id='C11.calc_distance', props=['C11', 'C12'], cls='P', harness='c11_calc_distance.c', entry='h_c11_calc_distance',
   mode='wrap', unwind=4, timeout=300, funcs=['calc_distance'], native_srcs=['lib/src/tldevel.c', 'lib/src/msa_alloc.c', 'lib/src/alphabet.c', 'lib/src/tlmisc.c'],
   trusted=[TRUST_MSG, 'bpm_block replaced by a recording stub with its contract (value in 0..1024; C11.bpm_block)'], assumptions=[A_WRAP])
 
+S(id='cli_penalties_parsed_as_float', props=['C09'], kind='order', files=['src/run_kalign.c'], function='main',
+  sequence=[r'case OPT_GPO:\s*param->gpo = atof\(optarg\);\s*break;', r'case OPT_GPE:\s*param->gpe = atof\(optarg\);\s*break;', r'case OPT_TGPE:\s*param->tgpe = atof\(optarg\);\s*break;'],
+  text='the option loop of main() (getopt_long, outside the contract queries) stores --gpo / --gpe / --tgpe with atof, each in its own field: fractional penalties such as the documented 5.5 reach run_kalign unchanged')
+S(id='cli_penalty_writers', props=['C09'], kind='sites_equal', pattern=r'param->\s*(gpo|gpe|tgpe)\s*=[^=]', files=['src/*.c'],
+  expected=['src/parameters.c:init_param', 'src/run_kalign.c:main'],
+  text='the three penalty fields of the CLI parameters are written only by init_param (-1 = not given, proved in C09.run_kalign) and by the three option cases of main()')
 S(id='omp_distance_cells_private', props=['C02'], kind='absent_in_region', files=['lib/src/sequence_distance.c'], function='d_estimation', keep_pp=True,
   after=r'#pragma omp parallel for[^\n]*collapse\(2\)', pattern=r'dm\s*\[(?!\s*i\s*\]\s*\[\s*j\s*\])',
   text='distance matrix (omp parallel for, collapse(2), static): the loop body touches no cell of dm but its own dm[i][j] -- one writer per cell and no read of a cell written by another iteration')
@@ -674,7 +721,7 @@ def _profile_mirror_shapes(tier):
     sh = _profile_shapes(tier)
     # measured: the mirror query finishes only for a group of 2 against a single sequence (others > 1200 s): not registered
     return sh[1:2] if tier == 'quick' else [x for x in sh if x['name'].startswith('ka2_kb1_')]
-Q(id='C07.profiles.fwd_groups', props=['C07', 'C08'], cls='B', harness='c07_profiles.c', entry='h_c07_profiles', shapes=_profile_shapes,
+Q(id='C07.profiles.fwd_groups', props=['C07'], cls='B', harness='c07_profiles.c', entry='h_c07_profiles', shapes=_profile_shapes,
   mode='wrap', unwind=8, timeout=900, funcs=['aln_seqprofile_foward', 'aln_profileprofile_foward', 'make_profile_n', 'update_n', 'set_gap_penalties_n'],
   srcs=['lib/src/aln_mem.c'], native_srcs=['lib/src/tldevel.c', 'lib/src/aln_mem.c'], trusted=[TRUST_MSG],
   assumptions=[A_FLOAT, A_KFLOAT, A_WRAP, A_NOFAIL, 'bounded: groups of 2 (thorough 3) identical copies against a single sequence or a group of 2, rectangles 1-2 rows x 2 (3) columns, 3 residue codes; profiles are built by the real make_profile_n / update_n (diagonal path) / set_gap_penalties_n'])
@@ -683,7 +730,7 @@ Q(id='C17.sort_by_both', props=['C17'], cls='P', harness='c17_comparators.c', en
   native_srcs=['lib/src/tldevel.c'], trusted=[TRUST_MSG, 'strncmp: CBMC library model'],
   assumptions=[A_WRAP, 'names: all NUL-terminated strings of up to 4 bytes (full byte domain, so proper prefixes included); checksums: full int domain'])
 
-Q(id='C07.profiles.bwd_mirror', props=['C07', 'C08'], cls='B', harness='c07_profiles.c', entry='h_c07_profiles_mirror', shapes=_profile_mirror_shapes, defs=['-DKV_ENTRY_MIRROR'],
+Q(id='C07.profiles.bwd_mirror', props=['C07'], cls='B', harness='c07_profiles.c', entry='h_c07_profiles_mirror', shapes=_profile_mirror_shapes, defs=['-DKV_ENTRY_MIRROR'],
   mode='wrap', unwind=8, timeout=1200, funcs=['aln_seqprofile_backward', 'aln_profileprofile_backward', 'aln_seqprofile_foward', 'aln_profileprofile_foward', 'make_profile_n', 'update_n', 'set_gap_penalties_n'],
   srcs=['lib/src/aln_mem.c'], native_srcs=['lib/src/tldevel.c', 'lib/src/aln_mem.c'], trusted=[TRUST_MSG],
   assumptions=[A_FLOAT, A_KFLOAT, A_WRAP, A_NOFAIL, 'bounded: same shapes as C07.profiles.fwd_groups'])
